@@ -391,6 +391,8 @@ def parsed_mismatch(arm, snap):
     for nid in sorted(snap['nodes']):
         for f, ty in (('ld', DelegationType.LABEL), ('cd', DelegationType.CAPACITY)):
             want = snap['nodes'][nid][f]
+            if want is None:
+                continue               # property absent: nothing is parsed
             want = None if want is None else {k: [e[0]] + ([e[1]] if e[0] in ('D', 'R') else []) for k, e in want.items()}
             try:
                 ds = arm.get_delegations(node_id=nid, delegation_type=ty)
@@ -407,7 +409,7 @@ def parsed_mismatch(arm, snap):
 def partition_obs(arm, case, via, bystanders=()):
     """generate_adms + rewrite_delegations on the current state of the store; the partitions are removed from the
     store afterwards (they are snapshotted first), so that rounds do not pile up.  The source is observed as
-    property strings AND through the API's parsed view, before, after generate_adms and after the re-keying."""
+    property strings AND through the API's parsed view, before partitioning and after the re-keying."""
     from fim.graph.resources.networkx_adm import NetworkXADMFactory
     storage = arm.storage
     garm = arm.graph_id
@@ -445,7 +447,6 @@ def partition_obs(arm, case, via, bystanders=()):
         obs['adms'][d] = {'gid': ren[gid], 'snap': strip_text(snapshot(storage, gid))}
     obs['store'] = sorted(ren.get(g, 'unexpected:' + str(g)) for g in visible())
     obs['after_generate'] = snapshot(storage, garm)
-    obs['parsed']['after_generate'] = parsed_mismatch(arm, before)
     obs['rw'] = {}
     for d in sorted(adms):
         adm = NetworkXADMFactory.create(adms[d])
@@ -604,7 +605,7 @@ def oracle_case(case, o):
         return 'source-untouched: the aggregate model was modified by generate_adms (delegation_guids %s)' % o['asked_guids'], None
     if o['after'] != B:
         return 'source-untouched: the aggregate model was modified by rewrite_delegations on one of its partitions', None
-    for when in ('start', 'after_generate', 'end'):
+    for when in ('start', 'end'):
         if o.get('parsed', {}).get(when):
             return ('source-untouched: parsed view of the aggregate model (%s) differs from its properties: %s' % (
                 {'start': 'before partitioning', 'after_generate': 'after generate_adms',
@@ -929,7 +930,7 @@ class Topo(C13Stream):
         return {'stream': 'topo', 'sites': sites, 'isl': isl}
 
     def gen(self, rng, tier):
-        n = 120 if tier == 'quick' else 800
+        n = 120 if tier == 'quick' else 600
         out = []
         for i in range(n):
             case = self.recipe(rng, big=(tier != 'quick' or i % 6 == 0))
@@ -1065,7 +1066,7 @@ class Hist(C13Stream):
         return C13Stream.shrink(self, case, failing)
 
     def gen(self, rng, tier):
-        n = 60 if tier == 'quick' else 500
+        n = 60 if tier == 'quick' else 400
         topo = Topo()
         out = []
         for i in range(n):
@@ -1144,7 +1145,7 @@ class Raw(C13Stream):
             'delegation ids incl. empty delegation objects; non-trivial = at least one delegation id')
 
     def gen(self, rng, tier):
-        n = 360 if tier == 'quick' else 4000
+        n = 360 if tier == 'quick' else 3500
         out = []
         for _ in range(n):
             nn = rng.randint(2, 14)
